@@ -9,7 +9,7 @@ RULE = ('real: limit 1 s (pool-level or per job), tasks that finish in time / sl
         'from {None,1,2,3,5,10,20}, clock advances around the limits, scans where '
         'the victim honours TERM (exit -15/15) or lingers (KILL path), workers that '
         'are / are not process-group leaders, map and imap jobs sharing the pool, '
-        'READY of a nearly-late job delivered before/after the scan. Non-trivial: '
+        'READY of a nearly-late job delivered before/after the scan; close()+join() of a pool without helper threads while a task with a limit is still running (the shutdown loop scans). Non-trivial: '
         '>=1 job crossing its hard limit at a scan with >=1 other job submitted.')
 ASSUMPTIONS = [
     'limits run from the ACK\'s own timestamp and only once the ACK was delivered',
